@@ -137,3 +137,15 @@ pub fn bset_sorted(s: &BTreeSet<usize>) -> (r: Vec<usize>)
 // `bytes.extend(n.to_bytes())`
 #[verifier::external_body] pub fn extend_usize_bytes(v: &mut Vec<u8>, n: usize) ensures final(v)@.len() == old(v)@.len() + 8 { v.extend(n.to_le_bytes()) }
 pub trait WriteStrategy<T>: Sized { fn write_to_vec(value: &T, buf: &mut Vec<u8>); }
+
+// ---- shared by the raw (U21) and compressed (U29) read dispatch ----
+// the part of the push buffer that from..to selects (positions are vector positions, the buffer starts at `stored`)
+pub open spec fn pushed_part<T>(p: Seq<T>, stored: int, from: int, to: int) -> Seq<T> {
+    let start = if from > stored { from } else { stored };
+    let lo = start - stored;
+    let hi = if to - stored < p.len() { to - stored } else { p.len() as int };
+    if start >= to || lo >= hi { Seq::<T>::empty() } else { p.subrange(lo, hi) }
+}
+// from.min(len) and to.min(len), the second never below the first (an empty or inverted request delivers nothing)
+pub open spec fn clampi(x: int, len: int) -> int { if x < len { x } else { len } }
+pub open spec fn clampi2(from: int, to: int, len: int) -> int { if clampi(to, len) < clampi(from, len) { clampi(from, len) } else { clampi(to, len) } }
